@@ -66,9 +66,14 @@ MCItems2q(u) == AbsLeaves \cup {NotO(Fn("boom"), FALSE), NotO(Fn("boom"), TRUE),
                                 AndO(<<Fn("boom")>>, TRUE), OrO(<<Fn("no"), Fn("boom")>>, TRUE),
                                 AndO(<<Fn("yes"), Fn("boom")>>, FALSE), SC(AB, "gt0", TRUE)}
 MCDepth2q(u) == MCDepth1(u) \cup ObjsOver(MCItems2q(u), 2)
-\* depth 3: the items are depth-2 objects over two constant leaves
-MCItems3(u) == {Fn("boom"), Fn("yes")} \cup ObjsOver({NotO(Fn("boom"), FALSE), NotO(Fn("boom"), TRUE), Fn("yes"),
-                                                      Tup(<<Fn("yes"), Fn("boom")>>)}, 1)
+\* depth 3: the items are hand-picked depth-2 specifications, one per behaviour
+MCItems3(u) == AbsLeaves \cup
+  {Sel(List(<<NotO(Fn("boom"), FALSE)>>), TRUE), NotO(Tup(<<Fn("yes"), Fn("boom")>>), TRUE),
+   NotO(Tup(<<Fn("yes"), Fn("boom")>>), FALSE), AndO(<<NotO(Fn("boom"), TRUE)>>, TRUE),
+   OrO(<<Tup(<<Fn("yes"), Fn("boom")>>), Fn("yes")>>, TRUE), OrO(<<List(<<Fn("no")>>), NotO(Fn("no"), FALSE)>>, FALSE),
+   Sel(NotO(Fn("boom"), FALSE), TRUE), List(<<NotO(Fn("yes"), TRUE), Fn("boom")>>),
+   Tup(<<Sel(Fn("boom"), FALSE), Fn("yes")>>), Sel(AndO(<<Fn("yes"), Fn("boom")>>, FALSE), FALSE),
+   NotO(SC(AB, "gt0", TRUE), FALSE)}
 MCDepth3(u) == ObjsOver(MCItems3(u), 2)
 \* Filter universes
 FilterAsts(u) == ObjsOver({Str(A1), Fn("pos")}, 2) \cup SCFew
@@ -88,15 +93,19 @@ ExItems2q(u) == {Str(A1), Cls("int"), Fn("pos"), Fn("boom"),
                  AndO(<<Cls("str"), Fn("len")>>, TRUE), OrO(<<Fn("len"), Cls("str")>>, FALSE),
                  SC(AB, "gt0", TRUE), SC(AB, "gt0", FALSE)}
 ExDepth2q(u) == ExDepth1(u) \cup ObjsOver(ExItems2q(u), 2)
-ExItems3(u) == {Fn("pos"), Str(A1)} \cup ObjsOver({NotO(Fn("len"), FALSE), NotO(Fn("pos"), TRUE), Str(ABX),
-                                                   List(<<Cls("str"), Fn("pos")>>)}, 1)
+ExItems3(u) == {Fn("pos"), Str(A1), Fn("boom")} \cup
+  {Sel(List(<<NotO(Fn("len"), FALSE)>>), TRUE), NotO(Tup(<<Str(A1), Fn("pos")>>), TRUE),
+   NotO(Tup(<<Str(A1), Fn("pos")>>), FALSE), AndO(<<NotO(Fn("len"), TRUE)>>, TRUE),
+   OrO(<<Tup(<<Cls("str"), Fn("pos")>>), Str(ABX)>>, TRUE), OrO(<<List(<<Cls("int")>>), NotO(SC(AB, "gt0", FALSE), FALSE)>>, FALSE),
+   Sel(NotO(SC(AB, "hasx", TRUE), FALSE), TRUE), List(<<NotO(Str(ABX), TRUE), Fn("len")>>),
+   Tup(<<Sel(Fn("pos"), FALSE), Str(A1)>>), Sel(AndO(<<Str(A1), Fn("len")>>, FALSE), FALSE)}
 ExDepth3(u) == ObjsOver(ExItems3(u), 2)
 
 CONSTANTS U,    \* name of the universe of top-level selector objects
           F     \* name of the universe of flows
 Asts == CASE U = "mc1" -> MCDepth1(U) [] U = "mc2q" -> MCDepth2q(U) [] U = "mc2" -> MCDepth2(U) [] U = "mc3" -> MCDepth3(U)
           [] U = "filter" -> FilterAsts(U)
-          [] U = "ex1" -> ExDepth1(U) [] U = "ex2q" -> ExDepth2q(U) [] U = "ex2" -> ExDepth2(U) [] U = "ex3" -> ExDepth3(U)
+          [] U = "ex1" -> ExDepth1(U) [] U = "ex2q" -> ExDepth2q(U) [] U = "ex23q" -> ExDepth2q(U) \cup ExDepth3(U) [] U = "ex2" -> ExDepth2(U) [] U = "ex3" -> ExDepth3(U)
 Flows == CASE F = "one" -> {<<V3>>, <<V2>>}
            [] F = "tiny" -> SeqsUpTo({V2, V3, V4}, 3)
            [] F = "small" -> SeqsUpTo({V2, V3, V4, V6}, 3)
